@@ -378,6 +378,12 @@ func (d *Decls) Fresh(hint string, sort Sort) Term {
 	return d.Const(fmt.Sprintf("%s!%d", hint, d.fresh[hint]), sort)
 }
 
+// FreshName returns a unique undeclared name derived from hint.
+func (d *Decls) FreshName(hint string) string {
+	d.fresh[hint]++
+	return fmt.Sprintf("%s!%d", hint, d.fresh[hint])
+}
+
 // Fun declares an uninterpreted function and returns an applicator.
 func (d *Decls) Fun(name string, args []Sort, ret Sort) func(...Term) Term {
 	id := smtIdent(name)
